@@ -295,6 +295,29 @@ Proof.
   - cbn [fst]. rewrite forallb_app, HB. reflexivity.
 Qed.
 
+Lemma block_reqmod_count r c s q : count is_reqmod (fst (block r c s q)) = 1.
+Proof. case_req q; reflexivity. Qed.
+
+Lemma block_ends r c s q : snd (block r c s q) = snd (block 0 0 0 q).
+Proof. case_req q; reflexivity. Qed.
+
+Lemma count_app p T1 T2 : count p (T1 ++ T2) = count p T1 + count p T2.
+Proof. unfold count. rewrite filter_app, app_length. reflexivity. Qed.
+
+Lemma spec_presented : forall reqs s b c, cl_presented reqs (fst (spec_conn s b c reqs)) = true.
+Proof.
+  unfold cl_presented. intros reqs s b c. apply Nat.eqb_eq. revert s b c.
+  induction reqs as [|q rest IH]; intros s b c; [reflexivity|].
+  cbn [spec_conn nread]. unfold ends.
+  pose proof (block_reqmod_count b c s q) as Hc. pose proof (block_ends b c s q) as He.
+  destruct (block b c s q) as [B oc]. cbn [fst snd] in Hc, He. rewrite <- He.
+  destruct oc.
+  - specialize (IH s (S b) (S c)).
+    destruct (spec_conn s (S b) (S c) rest) as [T n]. cbn [fst] in *.
+    rewrite count_app, Hc, IH. reflexivity.
+  - cbn [fst]. rewrite count_app, Hc. reflexivity.
+Qed.
+
 Lemma conn_fail_spec reqs s b c :
   forallb skip_guard reqs = true ->
   conn_fail s b reqs (fst (spec_conn s b c reqs)) = None.
@@ -302,7 +325,7 @@ Proof.
   intros HG. unfold conn_fail.
   rewrite (spec_in_range reqs s b c b (length reqs)) by lia.
   rewrite spec_hijack, spec_reqmod, spec_resmod, spec_session, spec_linked, spec_error.
-  rewrite (spec_skip _ _ _ _ HG), spec_relay. reflexivity.
+  rewrite (spec_skip _ _ _ _ HG), spec_relay, spec_presented. reflexivity.
 Qed.
 
 (* ---------------- contexts over the whole case ---------------- *)
